@@ -248,6 +248,8 @@ def gen_cases(rng, tier):
     for _ in range(6 if tier == 'quick' else 24):
         norb = rng.choice([7, 7, 8])
         na, nb = rng.choice([(2, 0), (0, 2), (2, 1), (1, 2), (2, 2)])
+        if _ % 3 == 2:
+            norb, (na, nb) = rng.choice([4, 5, 6]), rng.choice([(1, 1), (1, 0), (0, 1)])
         keys = fqeio.sector_keys(norb, 'ns', na + nb, na - nb)
         basis = fqeio.basis_of(norb, keys)
         vec = [[a, b, rng.randint(-2, 2) or 1, rng.randint(-2, 2)] for a, b in rng.sample(basis, min(len(basis), 12))]
@@ -407,8 +409,22 @@ def run_impl(case, mode):
     before = fqeio.read_state(wfn)
     out = wfn.apply(ham)
     after = fqeio.read_state(wfn)
-    return {'out': fqeio.read_state(out), 'keys': sorted([list(k) for k in out.sectors()]),
-            'input_unchanged': before == after}
+    res = {'out': fqeio.read_state(out), 'keys': sorted([list(k) for k in out.sectors()]),
+           'input_unchanged': before == after}
+    if mode == 'C' and case['mode'] == 'ns' and case['ham']['cls'] in ('restricted', 'gso', 'sso', 'general') and case['ham'].get('rank') == 2:
+        # the low-filling C kernels of the dense 1+2-body apply: the accelerated path leaves FqeData._low_thresh at 0, so
+        # they are reached by setting it (as the repository's own tests do); same expected result
+        for key in wfn.sectors():
+            sec = wfn.sector(key)
+            if sec.nalpha() < 0.3 * sec.norb() and sec.nbeta() < 0.3 * sec.norb():
+                sec._low_thresh = 0.3
+                res['lowfill'] = True
+        if res.get('lowfill'):
+            try:
+                res['out_lowfill'] = fqeio.read_state(wfn.apply(ham))
+            except Exception as e:  # noqa
+                res['lowfill_exc'] = type(e).__name__ + ':' + str(e)[:120]
+    return res
 
 
 # ------------------------------------------------------------------ model side
@@ -467,15 +483,20 @@ def compare(case, got, exp, mode):
         bad.append('result sectors %s != input sectors %s' % (got['keys'], exp['keys']))
     if not got['input_unchanged']:
         bad.append('apply modified its input wavefunction')
-    g = {'%d,%d' % (a, b): (re, im) for a, b, re, im in got['out']}
     scale = 1.0 + max([abs(x) for v in exp['out'].values() for x in v] + [0])
-    for key in sorted(set(g) | set(exp['out'])):
-        gr, gi = g.get(key, (0.0, 0.0))
-        er, ei = exp['out'].get(key, (0, 0))
-        if abs(gr - er) > TOL * scale or abs(gi - ei) > TOL * scale:
-            bad.append('coefficient of determinant (alpha,beta)=%s: impl %r%+rj, exact %d%+dj' % (key, gr, gi, er, ei))
-            if len(bad) > 3:
-                break
+    for field, label in (('out', ''), ('out_lowfill', ' [low-filling kernels]')):
+        if field not in got:
+            continue
+        g = {'%d,%d' % (a, b): (re, im) for a, b, re, im in got[field]}
+        for key in sorted(set(g) | set(exp['out'])):
+            gr, gi = g.get(key, (0.0, 0.0))
+            er, ei = exp['out'].get(key, (0, 0))
+            if abs(gr - er) > TOL * scale or abs(gi - ei) > TOL * scale:
+                bad.append('coefficient of determinant (alpha,beta)=%s%s: impl %r%+rj, exact %d%+dj' % (key, label, gr, gi, er, ei))
+                if len(bad) > 3:
+                    break
+    if 'lowfill_exc' in got:
+        bad.append('apply through the low-filling kernels raised %s' % got['lowfill_exc'])
     return bad
 
 
@@ -589,6 +610,7 @@ RULE = ('seeded generator over Hamiltonian class x rank x tensor shape (sparse, 
         '(Gaussian-integer data). non-trivial: result has >= 2 non-zero determinants and a negative component')
 THEOREM_FILES = ['P_C01']
 NOT_PROVED = ['the Knowles-Handy folding identity (h1 -= h2[:,k,k,:]; -h2 with middle axes exchanged) is proved as an operator identity '
-              '(C01_kh_folding, C01_kh_folded_hamiltonian); the table-driven evaluation of the generators E_ik (D-vector loops) is tied '
-              'by correspondence only',
+              '(C01_kh_folding, C01_kh_folded_hamiltonian) and the D-vector algorithm over the excitation tables is proved equal to the '
+              'operator action (C01_dvector_algorithm_sound); the C and Python loops that realise it (batching, tiling, low-filling and '
+              'sector-changing kernels) are tied to that algorithm by correspondence, not by translation',
               'number-broken wavefunctions are compared in the sigma(B)-twisted determinant convention (see DESIGN.md, C01/C07)']
